@@ -110,6 +110,33 @@ FIRST = {
     'C10-6': ('reported', ['C02'], None), 'C10-7': ('reported', [], None),
     'C08-5': ('analysis-error', [], 'sweep machine: local multiples of dt, results of local steps consumed by an in-line QR, views of '
                                     'site tensors; in-place store into an existing site tensor reported (keeps dtype and shape)'),
+    # round 5: support modules (qnumber / opchain / optree / autop) and a second pass over krylov / sweeps
+    'C05-9': ('analysis-error', [], 'C05.R4 decided on the partially evaluated OpChain.padded (symbolic chain, segments of (count, element))'),
+    'C17-11': ('reported', ['C03'], None),
+    'C02-8': ('silent', [], 'C02.R8 / C01.R5 / C03.R8 rules for the quantum-number helpers (outer sum fold order, row-major flatten, '
+                            'is_qsparse as an existential reduction)'),
+    'C17-12': ('reported', ['C06'], None),
+    'C17-13': ('silent', [], 'C17.R10 / C19.CTOR: ownership constructors convert the sequence they are handed'),
+    'C14-8': ('reported', ['C08', 'C09', 'C10'], None), 'C14-9': ('reported', ['C08', 'C09', 'C10'], None),
+    'C10-8': ('reported', [], None),
+    'C08-6': ('reported', [], None), 'C08-7': ('reported', ['C02', 'C09'], None),
+    # round 6: by kind of slip (element types / aliasing / boundary sizes), anywhere in the package
+    'C01-8': ('analysis-error', [], 'block pre-pass: None-sentinel of a conditional permutation; block engine: working copy of the matrix under '
+                                    'another name keeps the element type of the parameter apart (also exposed an inliner bug: a formal '
+                                    'returned under another name lost its initial binding)'),
+    'C03-7': ('reported', ['C02', 'C19'], None),
+    'C14-10': ('reported', ['C08', 'C09', 'C10'], None),
+    'C07-11': ('reported', [], None),
+    'C08-8': ('analysis-error', [], 'sweep machine: result of a local step written INTO the existing site tensor is reported'),
+    'C19-6': ('reported', ['C02', 'C03'], None), 'C19-7': ('reported', ['C03'], None),
+    'C19-8': ('reported', ['C08', 'C09', 'C10', 'C14'], None),
+    'C16-7': ('reported', ['C19'], None), 'C19-9': ('reported', [], None),
+    'C14-11': ('silent', [], 'K.R8 written basis rows: an early return hands back exactly the rows written so far (first reported for a wrong '
+                             'reason through the inliner bug, silent once that was fixed)'),
+    'C12-7': ('reported', ['C13'], None),
+    'C03-8': ('silent', ['C02', 'C13'], 'generic DEFINED rule: definite assignment over the functions a property depends on'),
+    'C17-14': ('analysis-error', [], 'graph-table rule: beliefs about an empty edge table agree (max(.., default=..)); support rules run first'),
+    'C01-9': ('reported', [], None),
     # round 4: C06 (claimed late; first run = literal-shape version of the table engine)
     'C06-1': ('reported', [], None),
     'C06-2': ('reported', [], 'reported for the wrong reason at first (the conditional construction was not understood); now: undecided '
